@@ -147,6 +147,21 @@ for _k, _v in ROUND8.items():
         _i = _t.rfind(" Sampling, not proof")
         CLAIMED[_k]["text"] = _t[:_i] + f" Round 8 (DESIGN §13.8): {_v}." + _t[_i:]
 
+ROUND9 = {
+ "C15": "an interface added at a stated position of the stack",
+ "C06": "the file of an aborted run looked into through the interface's own database object",
+ "C04": "environment groups beyond the 26th, a pin component on a single lattice site",
+ "C16": "(name, step) history entries in deep copies",
+ "C01": "a refused second assembly of one name must not stay attached",
+ "C12": "fuel components sharing one composition dict",
+ "C02": "adjustMassFrac with an element held constant",
+ "C03": "factor and area queries at explicit temperatures including zero degrees, annular wires",
+}
+for _k, _v in ROUND9.items():
+    _t = CLAIMED[_k]["text"]
+    _i = _t.rfind(" Sampling, not proof")
+    CLAIMED[_k]["text"] = _t[:_i] + f" Round 9 (DESIGN §13.9): {_v}." + _t[_i:]
+
 PENDING_IDS = ["C01", "C02", "C03", "C04", "C05", "C12", "C13", "C14", "C16"]
 PENDING = {p: "check not built yet in this session (claimed in DESIGN.md; will move to checks when its oracle runs clean)" for p in PENDING_IDS if p not in CLAIMED}
 
